@@ -6,7 +6,7 @@
 #include "seqmc.h"
 #include "qlibc.h"
 
-#define MAXL 8
+#define MAXL 10
 typedef struct { unsigned char b[8]; size_t n; int kind; } el_t;    /* kind 0 bytes, 1 string, 2 int64 */
 static el_t EL[4] = {{{1, 0, 2}, 3, 0}, {"hi", 3, 1}, {{0}, 8, 2}, {"q", 2, 1}};
 static int L, KIND;   /* KIND 0 queue 1 stack 2 grow */
@@ -17,7 +17,7 @@ static const el_t GP[4] = {{{1, 0, 2}, 3, 0}, {"ab", 2, 1}, {"7-c", 3, 2}, {{'z'
 
 enum { OP_PUSH, OP_POP, OP_POPSTR, OP_POPINT, OP_POPAT, OP_SETSIZE, OP_CLEAR, OP_ADD };
 typedef struct { int kind, i, e; const char *label; } op_t;
-static op_t OPS[128]; static int NOPS;
+static op_t OPS[200]; static int NOPS;
 static const char *op_label(int op) { return OPS[op].label; }
 static const el_t *E(int i) { return KIND == 2 ? &GP[i] : &EL[i]; }
 static int elid(const void *d, size_t n) { for (int i = 0; i < 4; i++) if (E(i)->n == n && !memcmp(E(i)->b, d, n)) return i; return -1; }
